@@ -1,9 +1,9 @@
 package updown
 
-var vMenu = []string{"CAA", "AAA", "CCA", "CCC", "ACA", "ACC", "CAN", "ANA", "NAA"}
+var vMenu = []string{"CAA", "AAA", "CCA", "CCC", "ACA", "ACC", "CAN", "ANA", "NAA", "CCN", "ACN"}
 
 // vMenuTargets: T targets, each an arbitrary entry of a menu of sequences that covers all four bins,
-// several distances, ambiguity counts and a pair failing the ambiguity threshold. Query is "CAA" on
+// several distances, ambiguity counts in every bin and a pair failing the ambiguity threshold. Query is "CAA" on
 // reference "AAA". Real getLines builds the records.
 func vMenuTargets(T int) (updownLine, []updownLine) {
 	txts := make([][]byte, T+1)
